@@ -325,7 +325,8 @@ def _weighted(case, fit_name, nonneg):
                 f'(excess {best[0] - s_fit:.3e} > {TOL})')
     if fit_name == 'fit_regress_nn' and not zero:
         g = crit.gradient(X, theta)
-        gtol = 1e-4 * max(1.0, float(np.max(np.abs(g))))
+        # plain criteria: exact linear algebra; whitened ones: the library solves with V by conjugate gradients (rtol 1e-5)
+        gtol = (1e-8 if case['method'] in ('cosine', 'corr') else 1e-4) * max(1.0, float(np.max(np.abs(g))))
         on = theta > 0
         if np.any(np.abs(g[on]) > gtol):
             return f'KKT: gradient of the score on the support of theta is {_fmt(g[on])}, expected 0 (theta {_fmt(theta)})'
@@ -688,11 +689,13 @@ _SELECTIONS = {
 }
 
 
-def _weighted_cases(thorough, slow):
-    """cases for one weighted-sum fitter; `slow`: a BFGS-based fitter (few sigma_k cases in quick mode)"""
+def _weighted_cases(thorough, fit_name):
+    """cases for one weighted-sum fitter.  The BFGS-based fitters are slow when sigma_k is given (an iterative solve per
+    evaluation) and fit_optimize also when its iterates run away, hence their smaller lists; no time budgets are used, so
+    the case lists (and the results) are deterministic."""
+    bfgs = fit_name.startswith('fit_optimize')
     cases = []
-    seeds = range(3 if thorough else 1)
-    for seed in seeds:
+    for seed in range(1 if (not thorough or fit_name == 'fit_optimize') else 3):
         for method in METHODS:
             for n_all in ((5, 6, 8) if thorough else (5, 6)):
                 for si, pidx in enumerate(_SELECTIONS[n_all]):
@@ -700,25 +703,26 @@ def _weighted_cases(thorough, slow):
                         if not thorough and (si + k + n_all) % 2:
                             continue
                         kind = ('random', 'mix', 'posmix')[(si + k + seed + n_all) % 3]
+                        if not thorough and fit_name == 'fit_optimize' and kind == 'mix' and (si + k) % 4 > 1:
+                            continue
                         desc = ('index', 'cond')[(si + seed + n_all) % 2]
                         n_train = (1, 3, 4)[(si + k) % 3]
-                        base = dict(seed=1000 * seed + 37 * si + k, k=k, n_all=n_all, pidx=pidx, desc=desc, kind=kind,
-                                    method=method, n_train=n_train, sigma='none',
-                                    via=('direct', 'direct', 'Fitter')[(si + k + seed) % 3])
-                        cases.append(base)
+                        cases.append(dict(seed=1000 * seed + 37 * si + k, k=k, n_all=n_all, pidx=pidx, desc=desc, kind=kind,
+                                          method=method, n_train=n_train, sigma='none',
+                                          via=('direct', 'direct', 'Fitter')[(si + k + seed) % 3]))
     # given sigma_k (whitened criteria only): one and several training RDMs
-    for seed in seeds:
+    for seed in range(1 if (not thorough or bfgs) else 3):
         for method in ('cosine_cov', 'corr_cov'):
             for n_all, sis in ((5, (0, 3)), (6, (1, 2))):
                 for si in sis:
                     for n_train in (1, 3):
-                        for sigma in (('full', 'diag') if thorough else ('full',)):
-                            ks = (2, 3) if (thorough or not slow) else (2,)
-                            for k in ks:
-                                if slow and not thorough and not (n_all == 5 and si == 3):
+                        for sigma in (('full', 'diag') if (thorough and not bfgs) else ('full',)):
+                            for k in ((2,) if (bfgs and not thorough) else (2, 3)):
+                                if bfgs and not thorough and n_all != 5:
                                     continue
                                 cases.append(dict(seed=5000 + 1000 * seed + 37 * si + k + n_train, k=k, n_all=n_all,
-                                                  pidx=_SELECTIONS[n_all][si], desc='index', kind=('mix', 'random', 'posmix')[(si + k) % 3],
+                                                  pidx=_SELECTIONS[n_all][si], desc='index',
+                                                  kind=('mix', 'random', 'posmix')[(si + k + n_train) % 3],
                                                   method=method, n_train=n_train, sigma=sigma, via='direct'))
     return cases
 
@@ -726,19 +730,16 @@ def _weighted_cases(thorough, slow):
 def tier_c(run, thorough):
     bds = []
     # ---- weighted-sum fitters ------------------------------------------------------------------
-    for orc, fit_name, slow in ((orc_regress, 'fit_regress', False), (orc_regress_nn, 'fit_regress_nn', False),
-                                (orc_optimize, 'fit_optimize', True), (orc_optimize_positive, 'fit_optimize_positive', True)):
+    for orc, fit_name in ((orc_regress, 'fit_regress'), (orc_regress_nn, 'fit_regress_nn'),
+                          (orc_optimize, 'fit_optimize'), (orc_optimize_positive, 'fit_optimize_positive')):
         bd = Bounded(run, orc.oracle_name, f'C08/{fit_name}/oracle/optimal-among-competitors',
                      'seeded problems: 2..%d basis RDMs on %s conditions, pattern selections none / permuted / subsets / with '
                      'repeats (<= 8 selected, descriptor index or a relabelled one), 1/3/4 training RDMs of different scale, '
                      'methods cosine, corr, cosine_cov, corr_cov, sigma_k none / given 2-D (full%s), ridge 0, normalize '
                      'on+off; competitors: 40 random directions, 45 local perturbations (scales 1e-1,1e-2,1e-3), 5-level '
                      'grid, each basis RDM alone, independent (NN)LS optimum; tolerance 1e-6 on the score'
-                     % ((4, '5/6/8', ', diagonal') if thorough else (3, '5/6', '')), function=fit_name,
-                     budget_s=(200 if thorough else 14) if slow else None)
-        for case in _weighted_cases(thorough, slow):
-            if bd.out_of_budget():
-                break
+                     % ((4, '5/6/8', ', diagonal') if thorough else (3, '5/6', '')), function=fit_name)
+        for case in _weighted_cases(thorough, fit_name):
             ic = _sigma_class(case)
             if fit_name == 'fit_optimize':
                 ic += ',' + _optimum_sign_class(case)
@@ -800,10 +801,10 @@ def tier_c(run, thorough):
     bd = Bounded(run, 'C08/restriction', 'C08/fitters/oracle/only-selected-conditions',
                  'all six fitters x 4 methods x pattern selections (subsets, repeats, permuted, relabelled descriptor) on 5/6 '
                  'conditions, 2-3 basis RDMs, sigma_k none / given: sentinel overwrite of unselected conditions, explicit '
-                 'restricted model, rotation of the index list', function='fit_*', budget_s=300 if thorough else 12)
-    for seed in range(2 if thorough else 1):
-        for fit_name in _FITTER_MODEL:
-            slow = fit_name.startswith('fit_optimize')
+                 'restricted model, rotation of the index list', function='fit_*')
+    for fit_name in _FITTER_MODEL:
+        slow = fit_name.startswith('fit_optimize')
+        for seed in range(2 if (thorough and not slow) else 1):
             for method in METHODS:
                 for n_all in (5, 6):
                     for si, pidx in enumerate(_SELECTIONS[n_all]):
@@ -811,16 +812,15 @@ def tier_c(run, thorough):
                             continue
                         if slow and not thorough and (si + n_all) % 2:
                             continue
-                        if bd.out_of_budget():
-                            break
                         k = 2 + (si + n_all) % 2
                         sigma = 'full' if (method.endswith('_cov') and si == 3 and not slow) else 'none'
                         if fit_name == 'fit_optimize_positive' and sigma != 'none':
                             sigma = 'none'
                         case = dict(seed=700 + 100 * seed + si, fitter=fit_name, k=k, n_all=n_all, pidx=pidx,
-                                    desc=('cond', 'index')[si % 2], kind=('random', 'mix')[si % 2], method=method,
+                                    desc=('cond', 'index')[si % 2],
+                                    kind=('random', 'posmix' if slow else 'mix')[si % 2], method=method,
                                     n_train=(1, 3)[si % 2], sigma=sigma)
-                        bd.check(orc_restriction, case, _sigma_class(case), function=fit_name)
+                        bd.check(orc_restriction, case, fit_name + ',' + _sigma_class(case), function=fit_name)
     bd.done()
     bds.append(bd)
     # ---- predictions ---------------------------------------------------------------------------
